@@ -98,8 +98,10 @@ def codecOf (name : Str) : Option Codec :=
   else if n = cs!"ascii" ∨ n = cs!"us_ascii" then some .ascii
   else none
 
-/-- `b.decode(encoding)` -/
+/-- `b.decode(encoding)`; an empty byte string decodes to `''` before the codec is even looked up
+(`PyUnicode_FromEncodedObject`) -/
 def decodeWith (b : Bytes) (enc : Str) : Except HErr Str :=
+  if b.isEmpty then .ok [] else
   match codecOf enc with
   | none => .error .lookupError
   | some .utf8 => match utf8Dec b with | some s => .ok s | none => .error .unicodeError
